@@ -73,4 +73,4 @@ let cmd_hist t =
 
 let () =
   register "mhist" cmd_hist;
-  register "mk" cmd_mk; register "mkc" cmd_mk; register "proof" cmd_proof; register "claim" cmd_claim
+  register "mk" cmd_mk; register "mkc" cmd_mk; register "mkdense" cmd_mk; register "mkdbig" cmd_mk; register "proof" cmd_proof; register "claim" cmd_claim
